@@ -26,7 +26,7 @@ from tools.gen import libgen
 LEVEL = "proof"
 MANIFEST = dict(
     category="proof",
-    text="Lean 4 theorems (34, no _partial statements). "
+    text="Lean 4 theorems (39, no _partial statements). "
          "(1) Unbounded: for every list of (argument, buf_args) the C prototype classes built as in Wrapc.build_proto_list and the "
          "Fortran dummy classes built as in Wrapf.build_arg_list_interface have the same length, the same number of dummy names, and "
          "are pairwise interoperable (Fortran 2018 18.3; list induction from a per-buf_arg lemma) under per-argument side conditions "
@@ -45,7 +45,11 @@ MANIFEST = dict(
          "consistently; all 29 declaration-template pairs and the f_result_decl are interoperable; all 27 typemap rows name a Fortran "
          "type/kind of the class and size of the C type (and discharge the side conditions of (1) for arguments and struct members); "
          "capsule_data / array_context / class-capsule struct pairs and 22 helper interfaces are interoperable; the two "
-         "ShroudTypeDefines tables define the same name -> value map.",
+         "ShroudTypeDefines tables define the same name -> value map; names: in a probe library that pulls in every helper pair and "
+         "whose 26 user-settable name format fields are symbolic, the name= of every bind(C) interface body (wrappers, capsule "
+         "destructor, copy_string, copy_array; F_CFI off and on) is, as a template over the fields, the name of a C function the "
+         "generated code declares or defines - hence for EVERY value of those fields (bind_names_defined_all_envs). Struct members "
+         "carry their extents: C order on the C side, reversed on the Fortran side, for every rank, arrays of pointers included.",
     design="3 C04",
     note="Ties: (T) tools/extract_interop.py recomputes all tables with the real lookup_fc_stmts / typemaps / helper texts and fails "
          "loudly on a template it cannot classify; (D) every call of build_proto_list / build_arg_list_interface and every wrap_struct on "
@@ -54,9 +58,11 @@ MANIFEST = dict(
          "result declaration) and every callback (C function-pointer type vs the emitted abstract interface, parameters and "
          "result) are compared with the model in the same way; functions whose arguments/result do not satisfy the theorems' "
          "side conditions are listed in the evidence (notes.side_condition_false: today only example.yaml's user-asserted "
-         "SidreLength typemap). Still oracle-only (not modelled in Lean): function-pointer members of structs, the helper "
-         "capsule destructor prototype written by wrapc, user-overridden C_prototype / F_C_arguments, abstract interfaces nested "
-         "inside callbacks. Oracle (implementation only, Python table independent of the model): every bind(C) name is "
+         "SidreLength typemap). Generated libraries override a random subset of the name format fields and pull in "
+         "the capsule destructor / copy_string / copy_array helpers; the translator's probe library is also run through the oracle. "
+         "Still oracle-only (not modelled in Lean): function-pointer members of structs, user-overridden C_prototype / "
+         "F_C_arguments, abstract interfaces nested inside callbacks. Option F_auto_reference_count (its own array_destructor "
+         "interface) cannot be generated at all (Shroud stops with 'Error with template') and is not explored. Oracle (implementation only, Python table independent of the model): every bind(C) name is "
          "defined by a generated prototype/definition or by the YAML declaration (language c), same argument count, names not permuted, "
          "pairwise interoperable arguments and result, callbacks against their abstract interface, struct / derived-type pairs field by "
          "field (typedefs and structs declared in the YAML are resolved), emitted type-code tables; thorough: gfortran -fc-prototypes of "
@@ -1471,8 +1477,10 @@ def run(ctx):
         "a user-written +value on a pointer argument and a user-overridden C_prototype / F_C_arguments are outside the admitted inputs",
         "C functions of the wrapped library that are bound directly (language c) are taken to have the signature written in the YAML "
         "decl; typedefs and structs declared in the YAML are taken as declared there",
-        "not modelled in Lean (oracle only): function-pointer members of structs, the capsule destructor prototype written by wrapc, "
-        "abstract interfaces nested inside callbacks, user-overridden C_prototype / F_C_arguments",
+        "not modelled in Lean (oracle only): function-pointer members of structs, abstract interfaces nested inside callbacks, "
+        "user-overridden C_prototype / F_C_arguments; F_auto_reference_count libraries are rejected by Shroud and not explored",
+        "names: the all-environments theorem is about the 26 name fields of extract_interop.NAME_FIELDS and the declarations of the probe "
+        "library; other fields / other helper users are explored by the generated libraries only",
         "a scalar char result with a deref attribute is rejected by Shroud (exception in result_as_arg_paths_agree)",
         "types defined only in another library (forward.yaml: tutorial / struct types, example.yaml: SIDRE_SidreLength) are not "
         "resolved; they are listed under notes.oracle.unresolved_names",
